@@ -17,7 +17,7 @@ func init() { sim.Register(c19{}) }
 
 func (c19) ID() string     { return "C19" }
 func (c19) Level() string  { return "fault_enumeration" }
-func (c19) QuickRuns() int { return 2400 }
+func (c19) QuickRuns() int { return 16000 }
 func (c19) Rule() string {
 	return "each evaluation is one generated emitter history (<=40 ops: instructions of 1-4 bytes from the reflected method catalogue, data blocks, labels, label references, REP/SEP/Assume*, comments, optional base) executed against a list of target capacities (thorough: every capacity 0..S; quick: 0,1,S-4..S and 8 seeded ones) plus a nil-target/ample-target twin; distinct = distinct scenario hash; non-trivial = at least one emit was refused for capacity in the run"
 }
